@@ -2,6 +2,7 @@
    conversions, parser, sizeinbase. -/
 import MpirProofs.Lemmas.Base
 import Mpir.Model.Radix
+import MpirProofs.Lemmas.Kernels
 import Mathlib.Tactic.Ring
 import Mathlib.Tactic.Linarith
 import Mathlib.Tactic.IntervalCases
@@ -681,5 +682,315 @@ theorem get_str_pow2_of_table {b : Nat} (hb : 2 ≤ b) (hok : Pow2Ok b) (h64 : b
     have : bpd * (m - 1) = bpd * m - bpd := by rw [Nat.mul_sub, Nat.mul_one]
     rw [this]; omega
   · rw [← hpow, ← pow_mul, ← hm]; exact hWlt
+
+/-! ### mpn_set_str -/
+
+theorem mul1_limb (u vl cl : Nat) (hu : u < B) (hv : vl < B) (hc : cl < B) :
+    (u * vl % B + cl) % B + B * ((boolToNat (decide ((u * vl % B + cl) % B < cl)) + u * vl / B) % B) = u * vl + cl ∧
+    (boolToNat (decide ((u * vl % B + cl) % B < cl)) + u * vl / B) % B < B := by
+  have hp : u * vl ≤ (B - 1) * (B - 1) := Nat.mul_le_mul (by omega) (by omega)
+  generalize u * vl = pr at *
+  have hb : ∀ p : Prop, [Decidable p] → boolToNat (decide p) = if p then 1 else 0 := by
+    intro p _; by_cases h : p <;> simp [boolToNat, h]
+  rw [hb]
+  simp only [B_eq] at *
+  split <;> omega
+
+theorem mul1C_cons (u : Nat) (us : List Nat) (vl cl : Nat) :
+    mul1C (u :: us) vl cl =
+      ((u * vl % B + cl) % B ::
+        (mul1C us vl ((boolToNat (decide ((u * vl % B + cl) % B < cl)) + u * vl / B) % B)).1,
+        (mul1C us vl ((boolToNat (decide ((u * vl % B + cl) % B < cl)) + u * vl / B) % B)).2) := rfl
+
+theorem mul1C_val : ∀ (u : List Nat) (vl cl : Nat), Limbs u → vl < B → cl < B →
+    val (mul1C u vl cl).1 + B ^ u.length * (mul1C u vl cl).2 = val u * vl + cl ∧
+    (mul1C u vl cl).2 < B ∧ Limbs (mul1C u vl cl).1 ∧ (mul1C u vl cl).1.length = u.length
+  | [], vl, cl, _, _, hc => by simp [mul1C, hc, Limbs_nil]
+  | u :: us, vl, cl, hu, hv, hc => by
+    have ⟨hu0, hus⟩ := Limbs_cons.mp hu
+    obtain ⟨e, c1⟩ := mul1_limb u vl cl hu0 hv hc
+    obtain ⟨ihv, ihc, ihl, ihn⟩ := mul1C_val us vl _ hus hv c1
+    rw [mul1C_cons]
+    generalize (boolToNat (decide ((u * vl % B + cl) % B < cl)) + u * vl / B) % B = c at *
+    simp only [val_cons, List.length_cons, pow_succ]
+    refine ⟨?_, ihc, Limbs_cons.mpr ⟨Nat.mod_lt _ B_pos, ihl⟩, by rw [ihn]⟩
+    generalize mul1C us vl c = res at *
+    nlinarith [ihv, e]
+
+theorem incr_val : ∀ (u : List Nat), Limbs u →
+    val (incr u).1 + B ^ u.length * (incr u).2 = val u + 1 ∧ (incr u).2 ≤ 1 ∧ Limbs (incr u).1 ∧
+    (incr u).1.length = u.length
+  | [], _ => by simp [incr, Limbs_nil]
+  | x :: xs, h => by
+    have ⟨hx, hxs⟩ := Limbs_cons.mp h
+    obtain ⟨iv, ic, il, in_⟩ := incr_val xs hxs
+    simp only [incr]
+    split
+    · rename_i hlt
+      simp only [val_cons, List.length_cons, pow_succ]
+      refine ⟨?_, ic, Limbs_cons.mpr ⟨Nat.mod_lt _ B_pos, il⟩, by rw [in_]⟩
+      have : (x + 1) % B = 0 ∧ x + 1 = B := by simp only [B_eq] at *; omega
+      rw [this.1]; generalize incr xs = res at *
+      nlinarith [iv, this.2]
+    · rename_i hlt
+      simp only [val_cons, List.length_cons, pow_succ]
+      refine ⟨?_, by omega, Limbs_cons.mpr ⟨Nat.mod_lt _ B_pos, hxs⟩, trivial⟩
+      have : (x + 1) % B = x + 1 := by simp only [B_eq] at *; omega
+      rw [this]; ring
+
+theorem add_1_val (u : List Nat) (v : Nat) (hu : Limbs u) (hne : u ≠ []) (hv : v < B) :
+    val (add_1 u v).1 + B ^ u.length * (add_1 u v).2 = val u + v ∧ (add_1 u v).2 ≤ 1 ∧ Limbs (add_1 u v).1 ∧
+    (add_1 u v).1.length = u.length := by
+  match u, hne with
+  | x :: xs, _ =>
+    have ⟨hx, hxs⟩ := Limbs_cons.mp hu
+    obtain ⟨iv, ic, il, in_⟩ := incr_val xs hxs
+    simp only [add_1]
+    split
+    · rename_i hlt
+      simp only [val_cons, List.length_cons, pow_succ]
+      refine ⟨?_, ic, Limbs_cons.mpr ⟨Nat.mod_lt _ B_pos, il⟩, by rw [in_]⟩
+      have : (x + v) % B + B = x + v := by simp only [B_eq] at *; omega
+      generalize incr xs = res at *
+      generalize (x + v) % B = r at *
+      nlinarith [iv, this]
+    · rename_i hlt
+      simp only [val_cons, List.length_cons, pow_succ]
+      refine ⟨?_, by omega, Limbs_cons.mpr ⟨Nat.mod_lt _ B_pos, hxs⟩, trivial⟩
+      have : (x + v) % B = x + v := by simp only [B_eq] at *; omega
+      rw [this]; ring
+
+theorem foldl_ofDigits (b : Nat) : ∀ (l : List Nat) (acc : Nat),
+    l.foldl (fun a d => a * b + d) acc = acc * b ^ l.length + ofDigits b l
+  | [], acc => by simp
+  | x :: l, acc => by
+    have h1 := foldl_ofDigits b l (acc * b + x)
+    have h2 := foldl_ofDigits b l (0 * b + x)
+    simp only [List.foldl_cons, ofDigits, List.length_cons, pow_succ] at *
+    rw [h1, h2]; ring
+
+theorem ofDigits_cons (b d : Nat) (ds : List Nat) : ofDigits b (d :: ds) = d * b ^ ds.length + ofDigits b ds := by
+  have := foldl_ofDigits b ds (0 * b + d)
+  simp only [ofDigits, List.foldl_cons] at *
+  rw [this]; ring
+
+theorem ofDigits_app (b : Nat) (l1 l2 : List Nat) :
+    ofDigits b (l1 ++ l2) = ofDigits b l1 * b ^ l2.length + ofDigits b l2 := by
+  unfold ofDigits
+  rw [List.foldl_append, foldl_ofDigits]; rfl
+
+theorem ofDigits_lt {b : Nat} (hb : 0 < b) : ∀ (ds : List Nat), (∀ d ∈ ds, d < b) → ofDigits b ds < b ^ ds.length
+  | [], _ => by simp
+  | x :: l, h => by
+    rw [ofDigits_cons]
+    have := ofDigits_lt hb l (fun d hd => h d (List.mem_cons_of_mem _ hd))
+    have hx : x + 1 ≤ b := h x (by simp)
+    simp only [List.length_cons, pow_succ]
+    have := Nat.mul_le_mul_right (b ^ l.length) hx
+    nlinarith
+
+/-- a chunk that fits a limb is read exactly -/
+theorem chunkVal_eq {b : Nat} (hb : 0 < b) (ds : List Nat) (h : ∀ d ∈ ds, d < b) (hfit : b ^ ds.length ≤ B) :
+    chunkVal b ds = ofDigits b ds := by
+  match ds with
+  | [] => rfl
+  | d :: ds =>
+    have key : ∀ (l : List Nat) (acc : Nat), (∀ x ∈ l, x < b) → acc * b ^ l.length + ofDigits b l < B →
+        l.foldl (fun r d => (r * b + d) % B) acc = acc * b ^ l.length + ofDigits b l := by
+      intro l
+      induction l with
+      | nil => intro acc _ _; simp
+      | cons x l ih =>
+        intro acc hl hlt
+        rw [ofDigits_cons] at hlt ⊢
+        simp only [List.foldl_cons, List.length_cons, pow_succ] at hlt ⊢
+        have hp : 0 < b ^ l.length := Nat.pow_pos hb
+        have hsmall : acc * b + x < B := by
+          have : (acc * b + x) * b ^ l.length ≤ acc * (b ^ l.length * b) + (x * b ^ l.length + ofDigits b l) := by
+            nlinarith
+          have : acc * b + x ≤ (acc * b + x) * b ^ l.length := Nat.le_mul_of_pos_right _ hp
+          omega
+        rw [Nat.mod_eq_of_lt hsmall, ih _ (fun y hy => hl y (List.mem_cons_of_mem _ hy)) (by nlinarith)]
+        ring
+    have hlt := ofDigits_lt hb (d :: ds) h
+    rw [ofDigits_cons] at hlt ⊢
+    exact key ds d (fun x hx => h x (List.mem_cons_of_mem _ hx)) (lt_of_lt_of_le hlt hfit)
+
+theorem bcStep_val (rp : List Nat) (m d : Nat) (hrp : Limbs rp) (hm : m < B) (hd : d < B) :
+    val (bcStep rp m d) = val rp * m + d ∧ Limbs (bcStep rp m d) := by
+  unfold bcStep
+  by_cases h0 : rp.length = 0
+  · have : rp = [] := List.length_eq_zero_iff.mp h0
+    subst this
+    by_cases hd0 : d = 0
+    · subst hd0; simp [Limbs_nil]
+    · have : (d != 0) = true := by simpa using hd0
+      simp [this, Limbs_cons, hd, Limbs_nil]
+  · have hne : rp ≠ [] := fun e => h0 (by rw [e]; rfl)
+    have hb : (rp.length == 0) = false := by simpa using h0
+    simp only [hb, Bool.false_eq_true, if_false]
+    obtain ⟨mv, mc, ml, mn⟩ := mul1C_val rp m 0 hrp hm B_pos
+    have hne1 : (mul_1 rp m).1 ≠ [] := by
+      intro e; have := congrArg List.length e; rw [show (mul_1 rp m).1.length = rp.length from mn] at this
+      simp at this; exact hne this
+    obtain ⟨av, ac, al, an⟩ := add_1_val (mul_1 rp m).1 d ml hne1 hd
+    change val (mul_1 rp m).1 + B ^ rp.length * (mul_1 rp m).2 = val rp * m + 0 at mv
+    change (mul_1 rp m).2 < B at mc
+    rw [show (mul_1 rp m).1.length = rp.length from mn] at av an
+    generalize mul_1 rp m = r1 at *
+    obtain ⟨r1, cy1⟩ := r1
+    generalize add_1 r1 d = r2 at *
+    obtain ⟨r2, cy2⟩ := r2
+    simp only at *
+    -- the two carries add up to less than B
+    have hlt := val_lt rp hrp
+    have hr2 := val_lt r2 al
+    rw [an] at hr2
+    have hp : 0 < B ^ rp.length := Nat.pow_pos B_pos
+    have hsum : cy1 + cy2 < B := by
+      by_contra hcon
+      have h1 : B ^ rp.length * B ≤ B ^ rp.length * (cy1 + cy2) := Nat.mul_le_mul_left _ (by omega)
+      have h2 : val rp * m + d < B ^ rp.length * B := by
+        have : val rp + 1 ≤ B ^ rp.length := hlt
+        have : (val rp + 1) * B ≤ B ^ rp.length * B := Nat.mul_le_mul_right _ this
+        nlinarith
+      nlinarith
+    rw [Nat.mod_eq_of_lt hsum]
+    by_cases hc : cy1 + cy2 = 0
+    · have : ((cy1 + cy2) != 0) = false := by simp [hc]
+      simp only [this, Bool.false_eq_true, if_false]
+      refine ⟨?_, al⟩
+      have : cy1 = 0 ∧ cy2 = 0 := by omega
+      rw [this.1] at mv; rw [this.2] at av; simp only [Nat.mul_zero, Nat.add_zero] at mv av; linarith
+    · have : ((cy1 + cy2) != 0) = true := by simpa using hc
+      simp only [this, if_true]
+      refine ⟨?_, Limbs_append.mpr ⟨al, Limbs_cons.mpr ⟨hsum, Limbs_nil⟩⟩⟩
+      rw [val_snoc, an]; nlinarith
+
+theorem foldl_pow (b : Nat) : ∀ (l : List Nat) (acc : Nat), acc * b ^ l.length < B → 0 < b →
+    l.foldl (fun m _ => (m * b) % B) acc = acc * b ^ l.length
+  | [], acc, _, _ => by simp
+  | x :: l, acc, h, hb => by
+    simp only [List.foldl_cons, List.length_cons, pow_succ] at h ⊢
+    have hp : 0 < b ^ l.length := Nat.pow_pos hb
+    have hs : acc * b < B := by
+      have : acc * b ≤ acc * b * b ^ l.length := Nat.le_mul_of_pos_right _ hp
+      nlinarith
+    rw [Nat.mod_eq_of_lt hs, foldl_pow b l (acc * b) (by nlinarith) hb]; ring
+
+theorem bcLoop_val {b cpl bb : Nat} (hb : 2 ≤ b) (hcpl : 0 < cpl) (hbb : bb = b ^ cpl) (hlt : bb < B) :
+    ∀ (n : Nat) (str rp : List Nat), str.length = n → str ≠ [] → (∀ d ∈ str, d < b) → Limbs rp →
+      val (bcLoop b cpl bb str rp) = val rp * b ^ str.length + ofDigits b str ∧
+      Limbs (bcLoop b cpl bb str rp) := by
+  intro n
+  induction n using Nat.strong_induction_on with
+  | _ n ih =>
+    intro str rp hn hne hd hrp
+    have hbpos : 0 < b := by omega
+    rw [bcLoop]
+    split
+    · rename_i hc
+      have htl : (str.take cpl).length = cpl := by rw [List.length_take]; omega
+      have htd : ∀ d ∈ str.take cpl, d < b := fun d h => hd d (List.mem_of_mem_take h)
+      have hcv : chunkVal b (str.take cpl) = ofDigits b (str.take cpl) :=
+        chunkVal_eq hbpos _ htd (by rw [htl, ← hbb]; exact Nat.le_of_lt hlt)
+      have hclt : ofDigits b (str.take cpl) < bb := by
+        have := ofDigits_lt hbpos _ htd; rw [htl, ← hbb] at this; exact this
+      obtain ⟨sv, sl⟩ := bcStep_val rp bb (chunkVal b (str.take cpl)) hrp hlt (by rw [hcv]; omega)
+      have hdl : (str.drop cpl).length = str.length - cpl := List.length_drop
+      obtain ⟨rv, rl⟩ := ih (str.drop cpl).length (by rw [hdl, ← hn]; omega) (str.drop cpl) _ rfl
+        (by intro e; rw [e] at hdl; simp at hdl; omega)
+        (fun d h => hd d (List.mem_of_mem_drop h)) sl
+      refine ⟨?_, rl⟩
+      rw [rv, sv, hcv, hdl]
+      conv_rhs => rw [← List.take_append_drop cpl str, ofDigits_app, hdl]
+      have : b ^ str.length = bb * b ^ (str.length - cpl) := by
+        rw [hbb, ← pow_add]; congr 1; omega
+      rw [List.take_append_drop, this]; ring
+    · rename_i hc
+      have hlen : str.length ≤ cpl := by omega
+      have hpos : 0 < str.length := List.length_pos_iff.mpr hne
+      have hple : b ^ str.length ≤ bb := by rw [hbb]; exact Nat.pow_le_pow_right hbpos hlen
+      have hm : (str.drop 1).foldl (fun m _ => (m * b) % B) b = b ^ str.length := by
+        have e : b * b ^ (str.drop 1).length = b ^ str.length := by
+          rw [List.length_drop, ← pow_succ']; congr 1; omega
+        rw [foldl_pow b _ b (by rw [e]; omega) hbpos, e]
+      have hcv : chunkVal b str = ofDigits b str := chunkVal_eq hbpos _ hd (by omega)
+      have hclt := ofDigits_lt hbpos _ hd
+      rw [hm, hcv]
+      exact bcStep_val rp _ _ hrp (by omega) (by omega)
+
+theorem setPow2Go_val {bpd : Nat} (hbpd : 0 < bpd) (h64 : bpd ≤ 64) : ∀ (ds : List Nat) (res nb : Nat),
+    (∀ d ∈ ds, d < 2 ^ bpd) → nb < 64 → res < 2 ^ nb →
+    val (setPow2Go bpd ds res nb) = res + 2 ^ nb * ofDigits (2 ^ bpd) ds.reverse ∧
+    Limbs (setPow2Go bpd ds res nb)
+  | [], res, nb, _, hnb, hres => by
+    have hB : res < B := lt_trans hres (by rw [B_eq]; exact Nat.pow_lt_pow_right (by omega) hnb |>.trans_eq (by norm_num))
+    by_cases h0 : res = 0
+    · subst h0; simp [setPow2Go, Limbs_nil]
+    · have : (res != 0) = true := by simpa using h0
+      simp [setPow2Go, this, Limbs_cons, hB, Limbs_nil]
+  | d :: ds, res, nb, hd, hnb, hres => by
+    have hd0 : d < 2 ^ bpd := hd d (by simp)
+    have hds : ∀ x ∈ ds, x < 2 ^ bpd := fun x hx => hd x (List.mem_cons_of_mem _ hx)
+    have hBsplit : B = 2 ^ (64 - nb) * 2 ^ nb := by unfold B; rw [← pow_add]; congr 1; omega
+    have hlow : (d <<< nb) % B = (d % 2 ^ (64 - nb)) <<< nb := by
+      rw [Nat.shiftLeft_eq, Nat.shiftLeft_eq, hBsplit, Nat.mul_mod_mul_right]
+    have hor : res ||| ((d <<< nb) % B) = (d % 2 ^ (64 - nb)) * 2 ^ nb + res := by
+      rw [hlow, Nat.or_comm, ← Nat.shiftLeft_add_eq_or_of_lt hres, Nat.shiftLeft_eq]
+    have hV : ofDigits (2 ^ bpd) (d :: ds).reverse = ofDigits (2 ^ bpd) ds.reverse * 2 ^ bpd + d := by
+      rw [List.reverse_cons, ofDigits_append]
+    rw [setPow2Go]
+    simp only [hor, hV]
+    have hk := Nat.div_add_mod d (2 ^ (64 - nb))
+    have hkm : d % 2 ^ (64 - nb) < 2 ^ (64 - nb) := Nat.mod_lt _ (Nat.pow_pos (by omega))
+    split
+    · rename_i hge
+      have hsh : bpd - (nb + bpd - 64) = 64 - nb := by omega
+      have hnew : d >>> (64 - nb) < 2 ^ (nb + bpd - 64) := by
+        rw [Nat.shiftRight_eq_div_pow, Nat.div_lt_iff_lt_mul (Nat.pow_pos (by omega)), ← pow_add]
+        rw [show nb + bpd - 64 + (64 - nb) = bpd by omega]; exact hd0
+      rw [hsh]
+      obtain ⟨iv, il⟩ := setPow2Go_val hbpd h64 ds (d >>> (64 - nb)) (nb + bpd - 64) hds (by omega) hnew
+      have hlimb : d % 2 ^ (64 - nb) * 2 ^ nb + res < B := by
+        rw [hBsplit]
+        have : d % 2 ^ (64 - nb) + 1 ≤ 2 ^ (64 - nb) := hkm
+        have := Nat.mul_le_mul_right (2 ^ nb) this
+        nlinarith
+      refine ⟨?_, Limbs_cons.mpr ⟨hlimb, il⟩⟩
+      rw [val_cons, iv, Nat.shiftRight_eq_div_pow]
+      have e1 : (2 : Nat) ^ (nb + bpd - 64) * B = 2 ^ nb * 2 ^ bpd := by
+        unfold B; rw [← pow_add, ← pow_add]; congr 1; omega
+      generalize ofDigits (2 ^ bpd) ds.reverse = V at *
+      generalize d / 2 ^ (64 - nb) = q at *
+      generalize d % 2 ^ (64 - nb) = m at *
+      calc m * 2 ^ nb + res + B * (q + 2 ^ (nb + bpd - 64) * V)
+          = res + 2 ^ nb * (2 ^ (64 - nb) * q + m) + (2 ^ (nb + bpd - 64) * B) * V := by rw [hBsplit]; ring
+        _ = res + 2 ^ nb * (V * 2 ^ bpd + d) := by rw [e1, hk]; ring
+    · rename_i hlt
+      have hres' : d % 2 ^ (64 - nb) * 2 ^ nb + res < 2 ^ (nb + bpd) := by
+        have hdd : d % 2 ^ (64 - nb) ≤ d := Nat.mod_le _ _
+        have : d + 1 ≤ 2 ^ bpd := hd0
+        rw [pow_add]
+        have := Nat.mul_le_mul_left (2 ^ nb) this
+        have := Nat.mul_le_mul_right (2 ^ nb) hdd
+        nlinarith
+      obtain ⟨iv, il⟩ := setPow2Go_val hbpd h64 ds _ (nb + bpd) hds (by omega) hres'
+      refine ⟨?_, il⟩
+      rw [iv]
+      have hdsmall : d % 2 ^ (64 - nb) = d := by
+        apply Nat.mod_eq_of_lt
+        exact lt_of_lt_of_le hd0 (Nat.pow_le_pow_right (by omega) (by omega))
+      rw [hdsmall, pow_add]; ring
+
+theorem set_str_pow2_of_table {b : Nat} (hok : Pow2Ok b) (h64 : bigBase b ≤ 64) (str : List Nat)
+    (hd : ∀ d ∈ str, d < b) :
+    val (set_str_pow2 b str) = ofDigits b str ∧ Limbs (set_str_pow2 b str) := by
+  obtain ⟨hpow, hbpd, _, _⟩ := hok
+  unfold set_str_pow2
+  obtain ⟨v, l⟩ := setPow2Go_val hbpd h64 str.reverse 0 0
+    (fun d h => by rw [hpow]; exact hd d (List.mem_reverse.mp h)) (by omega) (by simp)
+  refine ⟨?_, l⟩
+  rw [v, List.reverse_reverse, hpow]; simp
 
 end Mpir.Radix
